@@ -1381,12 +1381,14 @@ def _su3_parameters(U):
     # Special case: if the top left element is 1, then we essentially
     # already have an SU(2) transformation embedded in an SU(3) transform,
     # so all we need to do is get the parameters of that SU(2) transform.
-    if np.isclose(x, 1):
+    # norm of the rest of the first column, from the entries (1 - |x|^2 cancels when |x| ~ 1)
+    cf = np.sqrt(np.abs(y) ** 2 + np.abs(z) ** 2)
+    if cf < 1e-12 and np.isclose(x, 1, rtol=0, atol=1e-12):
         params = [[0.0, 0.0, 0.0], [0.0, 0.0, 0.0], _su2_parameters(U[1:, 1:])]
     # Another special case: the modulus of the top left element is 1.
     # Then we need to do a transformation on modes 1 and 2 to make the top
     # entry 1, then an SU(2) transformation on modes 2 and 3 with what's left.
-    elif np.isclose(np.abs(x), 1):
+    elif cf < 1e-12:
         # Compute the required phase matrix and embed into SU(3)
         phase_su2 = np.array([[np.conj(x), 0], [0, x]])
 
@@ -1405,7 +1407,6 @@ def _su3_parameters(U):
 
     else:
         # Typical case
-        cf = np.sqrt(1 - pow(np.absolute(x), 2))
         capY, capZ = y / cf, z / cf
 
         # Build the SU(2) transformation matrices
